@@ -13,10 +13,12 @@ statement either changes the generated Lean or is rejected).  ANY construct outs
 Usage: py2lean2.py <repo_root> <out_dir>     writes <out_dir>/Loops.lean (stage 2: loop helpers) and
                                              <out_dir>/Loops2.lean (stage 3: suffix filter, filter_pair,
                                              find_candidates, index builders, per-chunk join / filter workers,
-                                             missing-value pairs), prints a JSON summary.
+                                             missing-value pairs) and <out_dir>/Loops3.lean (stage 4: functions
+                                             that may raise — matcher split, generate_tokens, filter_candset
+                                             split, profiler — in `Except PyErr`), prints a JSON summary.
        exit 0 = ok, 2 = usage, 3 = construct outside the accepted subset / missing source.
 The output is a pure function of the sources: regenerating from unchanged sources is byte-identical.
-Proof obligations: SSJ/Proofs/GenLoops.lean and SSJ/Proofs/GenLoops2.lean (`lake build SSJ.Proofs.GenLoops2`).
+Proof obligations: SSJ/Proofs/GenLoops.lean, GenLoops2.lean, GenLoops3.lean (`lake build SSJ.Proofs.GenLoops3`).
 """
 import ast
 import hashlib
@@ -67,6 +69,9 @@ def lean_type(t, top=True):
     if k == 'Fn':
         s = ' → '.join([lean_type(a, False) for a in t[1]] + [lean_type(t[2], False)])
         return s if top else '(%s)' % s
+    if k == 'Except':
+        s = 'Except PyErr %s' % lean_type(t[1], False)
+        return s if top else '(%s)' % s
     if k == 'List':
         s = 'List %s' % lean_type(t[1], False)
     elif k == 'Option':
@@ -89,12 +94,18 @@ def default_of(t):
         return '0'
     if t in ('τ', 'NumTok'):
         return 'default'
+    if isinstance(t, tuple) and t[0] == 'Fn':
+        return '(fun %s=> %s)' % ('_ ' * len(t[1]), default_of(t[2]))
     if t == 'Bool':
         return 'false'
     if t == 'String':
         return '""'
     if t == 'Cell':
         return 'Cell.missing'
+    if t == 'PyV':
+        return 'PyV.none'
+    if t == 'SimArg':
+        return '(SimArg.raw Cell.missing)'
     if t == 'Row':
         return '[]'
     if isinstance(t, tuple):
@@ -728,6 +739,114 @@ SPECS = [
          calls=WORKER_CALLS,
          locals=dict(WORKER_LOCALS, l_join_attr_index='Nat', r_join_attr_index='Nat', l_row='Row')),
 
+    # ------------------------------------------------------------------------------------------------
+    # stage 4: functions that may raise (`Except PyErr`): KeyError of `d[k]` ↦ PyErr.other, the tokenizer's
+    # TypeError on a non-str ↦ PyErr.typeErr, exceptions of function-valued parameters are propagated
+    # ------------------------------------------------------------------------------------------------
+    dict(lean='filter_candset_split', out='Loops3', file='py_stringsimjoin/filter/filter.py', cls=None,
+         py='_filter_candset_split', model='SSJ.filterCandset (the per-chunk mask loop)', raises=True,
+         tyvars='{σ : Type}',
+         pyparams=['candset', 'candset_l_key_attr', 'candset_r_key_attr', 'ltable', 'rtable', 'l_key_attr',
+                   'r_key_attr', 'l_filter_attr', 'r_filter_attr', 'filter_object', 'show_progress'],
+         # pandas parts as parameters: the three column-label lists, the rows of the three frames, and the
+         # boolean-mask selection `candset[valid_rows]`
+         params=[('candset_columns', L('String')), ('l_columns', L('String')), ('r_columns', L('String')),
+                 ('candset', L('Row')), ('ltable', L('Row')), ('rtable', L('Row')),
+                 ('candset_l_key_attr', 'String'), ('candset_r_key_attr', 'String'), ('l_key_attr', 'String'),
+                 ('r_key_attr', 'String'), ('l_filter_attr', 'String'), ('r_filter_attr', 'String'),
+                 ('filter_pair', Fn(['Cell', 'Cell'], ('Except', 'Bool'))),
+                 ('select_rows', Fn([L('Row'), L('Bool')], 'σ'))],
+         ret='σ',
+         pandas_views={'l_columns': 'list(ltable.columns.values)', 'r_columns': 'list(rtable.columns.values)',
+                       'candset_columns': 'list(candset.columns.values)'},
+         frames=['candset', 'ltable', 'rtable'], mask_select={'candset': 'select_rows'},
+         fn_params={'filter_object.filter_pair': dict(lean='filter_pair', args=['Cell', 'Cell'], ret='Bool',
+                                                      raises=True)},
+         calls={'build_dict_from_table': dict(lean='build_dict_from_table', args=[L('Row'), 'Nat', 'Nat', 'Bool'],
+                                              kwargs=['table', 'key_attr_index', 'join_attr_index', 'remove_null'],
+                                              ret=D('Cell', 'Row'),
+                                              **{'import': (GH_MOD, 'build_dict_from_table')})},
+         ignore_if=['show_progress'],
+         locals={'l_key_attr_index': 'Nat', 'l_filter_attr_index': 'Nat', 'r_key_attr_index': 'Nat',
+                 'r_filter_attr_index': 'Nat', 'ltable_dict': D('Cell', 'Row'), 'rtable_dict': D('Cell', 'Row'),
+                 'candset_l_key_attr_index': 'Nat', 'candset_r_key_attr_index': 'Nat', 'valid_rows': L('Bool'),
+                 'candset_row': 'Row', 'l_id': 'Cell', 'r_id': 'Cell', 'l_row': 'Row', 'r_row': 'Row'}),
+    dict(lean='apply_matcher_split', out='Loops3', file='py_stringsimjoin/matcher/apply_matcher.py', cls=None,
+         py='_apply_matcher_split', model='SSJ.applyMatcherSplit', raises=True, nan_is_value=True,
+         pyparams=['candset', 'candset_l_key_attr', 'candset_r_key_attr', 'ltable', 'rtable', 'l_key_attr',
+                   'r_key_attr', 'l_match_attr', 'r_match_attr', 'tokenizer', 'sim_function', 'threshold',
+                   'comp_op', 'allow_missing', 'l_out_attrs', 'r_out_attrs', 'l_out_prefix', 'r_out_prefix',
+                   'out_sim_score', 'show_progress', 'l_tokens', 'r_tokens'],
+         params=[('candset_columns', L('String')), ('l_columns', L('String')), ('r_columns', L('String')),
+                 ('candset', L('Row')), ('ltable', L('Row')), ('rtable', L('Row')),
+                 ('candset_l_key_attr', 'String'), ('candset_r_key_attr', 'String'), ('l_key_attr', 'String'),
+                 ('r_key_attr', 'String'), ('l_match_attr', 'String'), ('r_match_attr', 'String'),
+                 ('tok', O(TOKFN)), ('sim', Fn(['SimArg', 'SimArg'], 'PyV')), ('threshold', 'PyV'),
+                 ('comp_op', 'String'), ('allow_missing', 'Bool')] + WORKER_OUT +
+                [('out_sim_score', 'Bool'), ('l_tokens', O(D('Cell', L('String')))),
+                 ('r_tokens', O(D('Cell', L('String'))))],
+         ret=WORKER_RET, tokenizer='tokenizer', param_map={'tokenizer': ('tok', O(TOKFN))},
+         pandas_views={'l_columns': 'list(ltable.columns.values)', 'r_columns': 'list(rtable.columns.values)',
+                       'candset_columns': 'list(candset.columns.values)'},
+         frames=['candset', 'ltable', 'rtable'],
+         fn_params={'sim_function': dict(lean='sim', args=['SimArg', 'SimArg'], ret='PyV')},
+         fn_aliases={'comp_fn': COMP_ALIAS},
+         calls=dict(WORKER_CALLS, build_dict_from_table=dict(
+             lean='build_dict_from_table', args=[L('Row'), 'Nat', 'Nat', 'Bool'],
+             kwargs=['table', 'key_attr_index', 'join_attr_index', 'remove_null'], ret=D('Cell', 'Row'),
+             **{'import': (GH_MOD, 'build_dict_from_table')})),
+         ignore_if=['show_progress'], dataframe_return=('output_rows', 'output_header'),
+         # `l_apply_col_value` holds the raw cell, later (with a tokenizer) its tokens: the union type SimArg
+         locals={'l_key_attr_index': 'Nat', 'l_match_attr_index': 'Nat', 'l_out_attrs_indices': L('Nat'),
+                 'r_key_attr_index': 'Nat', 'r_match_attr_index': 'Nat', 'r_out_attrs_indices': L('Nat'),
+                 'ltable_dict': D('Cell', 'Row'), 'rtable_dict': D('Cell', 'Row'),
+                 'candset_l_key_attr_index': 'Nat', 'candset_r_key_attr_index': 'Nat',
+                 'has_output_attributes': 'Bool', 'output_rows': L('Row'), 'tokenize_flag': 'Bool',
+                 'use_cache': 'Bool', 'candset_row': 'Row', 'l_id': 'Cell', 'r_id': 'Cell', 'l_row': 'Row',
+                 'r_row': 'Row', 'l_apply_col_value': 'SimArg', 'r_apply_col_value': 'SimArg',
+                 'allow_pair': 'Bool', 'sim_score': 'PyV', 'output_row': 'Row', 'output_header': L('String')}),
+
+    dict(lean='generate_tokens', out='Loops3', file='py_stringsimjoin/matcher/apply_matcher.py', cls=None,
+         py='generate_tokens', model='SSJ.generateTokens / SSJ.tokenCache', raises=True,
+         pyparams=['table', 'key_attr', 'join_attr', 'tokenizer'],
+         # the two column selections of the non-null rows are the parameters
+         params=[('key_column', L('Cell')), ('value_column', L('Cell')), ('tok', TOKFN)],
+         ret=D('Cell', L('String')), tokenizer='tokenizer', param_map={'tokenizer': (None, None)},
+         pandas_views={'table_nonnull': 'table[pd.notnull(table[join_attr])]'},
+         expr_views={'table_nonnull[key_attr]': ('key_column', L('Cell')),
+                     'table_nonnull[join_attr]': ('value_column', L('Cell'))},
+         locals={}),
+
+    dict(lean='format_statistic', out='Loops3', file='py_stringsimjoin/profiler/profiler.py', cls=None,
+         py='_format_statistic', model='SSJ.Profiler.formatStatistic',
+         params=[('stat', 'Nat'), ('stat_percent', 'PyV')], ret='String', str_of_float='strOfPercent', locals={}),
+    dict(lean='profile_table_for_join', out='Loops3', file='py_stringsimjoin/profiler/profiler.py', cls=None,
+         py='profile_table_for_join', model='SSJ.Profiler.profileTable', raises=True,
+         pyparams=['input_table', 'profile_attrs'],
+         # pandas parts as parameters: the column labels, the number of rows, and per attribute the two column
+         # statistics `sum(pd.isnull(input_table[attr]))`, `input_table[attr].nunique(dropna=True)`
+         params=[('columns', L('String')), ('num_rows', 'Nat'), ('missing_count', Fn(['String'], 'Nat')),
+                 ('nunique', Fn(['String'], 'Nat')), ('profile_attrs', O(L('String')))],
+         ret=L(T('String', 'String', 'String', 'String')),
+         ignore_stmts=["validate_input_table(input_table, 'input table')"],
+         raising_stmts={'validate_attr': dict(
+             args=['String', '=input_table.columns', "='profile attribute'", "='input table'"],
+             lean='if !(columns.contains {0}) then throw PyErr.assertion',
+             **{'import': ('py_stringsimjoin.utils.validation', 'validate_attr')})},
+         pandas_views={'num_rows': 'len(input_table)'},
+         expr_views={'list(input_table.columns.values)': ('columns', L('String')),
+                     'sum(pd.isnull(input_table[attr]))': ('(missing_count attr)', 'Nat'),
+                     'input_table[attr].nunique(dropna=True)': ('(nunique attr)', 'Nat')},
+         calls={'_format_statistic': dict(lean='format_statistic', args=['Nat', 'PyV'], ret='String')},
+         tail_return=('profile_output',
+                      ["output_header = ['Attribute', 'Unique values', 'Missing values', 'Comments']",
+                       'output_df = pd.DataFrame(profile_output, columns=output_header)',
+                       "return output_df.set_index('Attribute')"]),
+         locals={'profile_output': L(T('String', 'String', 'String', 'String')), 'attr': 'String',
+                 'missing_values': 'Nat', 'unique_values': 'Nat', 'unique_percent': 'PyV',
+                 'missing_percent': 'PyV', 'formatted_unique_stat': 'String', 'formatted_missing_stat': 'String',
+                 'comments': 'String'}),
+
 ]
 
 
@@ -782,6 +901,10 @@ class Tr:
         self.aliases_bound = set()
         self.checked = set()
         self.extra_sources = []
+        self.pre = []
+        self.views_bound = set()
+        self.no_raise_ctx = 0
+        self.flags = {}               # Bool local -> Option-typed names it implies are not None
         self.mutated = set()
         self.multi_assigned = set()
         self.declared = set()
@@ -850,6 +973,17 @@ class Tr:
             return '[]'
         if have == L('Cell') and want == 'Row':
             return code
+        if want == 'SimArg':
+            if have == 'Cell':
+                return '(SimArg.raw %s)' % code
+            if have == L('String'):
+                return '(SimArg.toks %s)' % code
+        if have == 'NaN':
+            # numpy's NaN: a missing cell; as a score value the `PyV` that `scoreCell` maps to a missing cell
+            if want == 'Cell':
+                return 'Cell.missing'
+            if want == 'PyV':
+                return '(PyV.err PyErr.other)'
         if want == 'Cell':
             # a value stored into an output row
             if have == 'FloatLit':
@@ -869,7 +1003,7 @@ class Tr:
     def show(t):
         if isinstance(t, tuple) and t[0] == 'Set':
             return 'set of %s' % lean_type(t[1])
-        return t if isinstance(t, str) and t in ('EmptyList', 'EmptyDict', 'EmptySet', 'Cache', 'NoneT', 'FloatLit') else lean_type(t)
+        return t if isinstance(t, str) and t in ('EmptyList', 'EmptyDict', 'EmptySet', 'Cache', 'NoneT', 'FloatLit', 'NaN') else lean_type(t)
 
     def numeric_join(self, node, a, b):
         (ca, ta), (cb, tb) = a, b
@@ -887,19 +1021,23 @@ class Tr:
         if name == 'maxsize' and name not in self.env and name not in self.locals:
             self.need_import(e, 'maxsize')
             return 'maxsize', 'Int'          # SSJ.maxsize = sys.maxsize
+        code = name
         if name in self.spec.get('param_map', {}) and name not in self.env:
             code, t = self.spec['param_map'][name]
             if code is None:
                 self.fail(e, '`%s` may only be used where the table expects it' % name)
-            return code, t
-        if name not in self.env:
+        elif name not in self.env:
             self.fail(e, 'variable not in scope / not in the type table')
-        t = self.env[name]
+        else:
+            t = self.env[name]
         if t == 'Cache':
             self.fail(e, 'cache variable used outside the recognised cache idiom')
         if name in self.narrowed:
-            return '(%s.getD %s)' % (name, default_of(t[1])), t[1]
-        return name, t
+            if t == 'SimArg':
+                # a value that is either a raw cell or a token list, known here to be still the raw cell
+                return '(simArgCell %s)' % code, 'Cell'
+            return '(%s.getD %s)' % (code, default_of(t[1])), t[1]
+        return code, t
 
     def no_alias(self, e, last_use=None):
         """a mutated list/dict variable must never be aliased (the translation is functional) — except
@@ -956,6 +1094,19 @@ class Tr:
         return True
 
     def expr(self, e):
+        if not isinstance(e, (ast.Constant, ast.Name)) and src_of(e) in self.spec.get('expr_views', {}) \
+                and not isinstance(e, ast.Subscript):
+            # a pandas expression that is a PARAMETER of the generated function (literal form checked); it may
+            # mention variables of the function, which become the arguments of the parameter
+            code, t = self.spec['expr_views'][src_of(e)]
+            for n in names_in(e):
+                if n.id in self.locals and n.id not in self.env:
+                    self.fail(e, 'variable `%s` of a pandas expression is not in scope' % n.id)
+            note = '%s:%d `%s` is the parameter expression `%s` of the generated function' % (
+                self.fname, e.lineno, src_of(e), code)
+            if note not in self.notes:
+                self.notes.append(note)
+            return code, t
         if isinstance(e, ast.Constant):
             v = e.value
             if isinstance(v, bool):
@@ -1013,7 +1164,11 @@ class Tr:
         if isinstance(e, ast.Compare):
             return self.compare(e)
         if isinstance(e, ast.BoolOp):
-            parts = [self.expr(v) for v in e.values]
+            self.no_raise_ctx += 1
+            try:
+                parts = [self.expr(v) for v in e.values]
+            finally:
+                self.no_raise_ctx -= 1
             for (c, t), v in zip(parts, e.values):
                 if t != 'Bool':
                     self.fail(v, '`and`/`or` operand must be a Bool expression, have %s' % self.show(t))
@@ -1028,7 +1183,11 @@ class Tr:
             return self.call(e)
         if isinstance(e, ast.IfExp):
             c, _ = self.truthy(e.test)
-            (a, ta), (b, tb) = self.expr(e.body), self.expr(e.orelse)
+            self.no_raise_ctx += 1
+            try:
+                (a, ta), (b, tb) = self.expr(e.body), self.expr(e.orelse)
+            finally:
+                self.no_raise_ctx -= 1
             if ta in ('Nat', 'Int', 'Rat') and tb in ('Nat', 'Int', 'Rat'):
                 a, b, ta = self.numeric_join(e, (a, ta), (b, tb))
             elif ta != tb:
@@ -1060,7 +1219,7 @@ class Tr:
         if key == 'np.NaN':
             if self.imports.get('np') != ('numpy', None):
                 self.fail(e, '`np` must be numpy')
-            return 'Cell.missing', 'Cell'
+            return 'Cell.missing', ('NaN' if self.spec.get('nan_is_value') else 'Cell')
         if key in self.spec.get('consts', {}):
             return self.object_const(e, key)
         if isinstance(e.value, ast.Name) and e.value.id in self.env:
@@ -1089,6 +1248,16 @@ class Tr:
         return lit, t
 
     def subscript(self, e):
+        if src_of(e) in self.spec.get('expr_views', {}):
+            # a pandas column selection that is a PARAMETER of the generated function (literal form checked)
+            code, t = self.spec['expr_views'][src_of(e)]
+            base = e.value.id if isinstance(e.value, ast.Name) else None
+            if base in self.spec.get('pandas_views', {}) and base not in self.views_bound:
+                self.fail(e, '`%s` is used before it is bound' % base)
+            note = '%s:%d `%s` is the parameter `%s` of the generated function' % (self.fname, e.lineno, src_of(e), code)
+            if note not in self.notes:
+                self.notes.append(note)
+            return code, t
         # cache read
         if isinstance(e.value, ast.Name) and self.cache and e.value.id == self.cache['name']:
             return self.cache_read(e)
@@ -1104,6 +1273,15 @@ class Tr:
                 self.fail(e, 'key of the dict returned by build must be one of %s' % sorted(keys))
             field = keys[sl.value]
             return '%s.%s' % (obj, field), dict(RECORD_FIELDS[CLASSES[o['cls']]['record']])[field]
+        if isinstance(e.value, ast.Name) and e.value.id in self.spec.get('mask_select', {}) \
+                and isinstance(sl, ast.Name):
+            # pandas boolean-mask selection `frame[mask]`: the selection function is a parameter
+            fr, tf = self.expr(e.value)
+            mk, tm = self.expr(sl)
+            if tm != L('Bool'):
+                self.fail(e, 'mask of type %s' % self.show(tm))
+            fn = self.spec['mask_select'][e.value.id]
+            return '(%s %s %s)' % (fn, fr, mk), self.params[fn][2]
         if isinstance(sl, ast.Slice):
             if sl.step is not None:
                 self.fail(e, 'slice with a step')
@@ -1124,6 +1302,11 @@ class Tr:
                 self.fail(bound, 'slice bound must be an integer')
             return '(%s %s %s)' % (fn, c, self.coerce(bound, k, tk, 'Int')), t
         c, t = self.expr(e.value)
+        if isinstance(t, tuple) and t[0] == 'Dict' and isinstance(e.ctx, ast.Load):
+            # d[k]: KeyError when the key is absent
+            k, tk = self.expr(sl)
+            k = self.coerce(sl, k, tk, t[1])
+            return self.raising(e, '(match Dict.get? %s %s with | some v => pure v | none => throw PyErr.other)' % (c, k), t[2])
         if isinstance(t, tuple) and t[0] == 'Prod':
             if isinstance(sl, ast.Constant) and sl.value in (0, 1) and not isinstance(sl.value, bool):
                 return '%s.%d' % (c, sl.value + 1), t[sl.value + 1]
@@ -1160,9 +1343,17 @@ class Tr:
                     self.fail(e, 'numeric operand expected')
             j = 'Rat' if 'Rat' in (a[1], b[1]) else 'Int'
             return '(%s - %s)' % (self.coerce(e, a[0], a[1], j), self.coerce(e, b[0], b[1], j)), j
+        if isinstance(e.op, ast.Mult) and a[1] == 'PyV' and b[1] in ('Nat', 'Int', 'PyV'):
+            return '(PyV.mul %s %s)' % (a[0], self.coerce(e, b[0], b[1], 'PyV')), 'PyV'
         if isinstance(e.op, ast.Mult):
             ca, cb, t = self.numeric_join(e, a, b)
             return '(%s * %s)' % (ca, cb), t
+        if isinstance(e.op, ast.Div) and a[1] == 'PyV' and b[1] == 'PyV' and self.spec.get('raises') \
+                and isinstance(e.right, ast.Call) and isinstance(e.right.func, ast.Name) \
+                and e.right.func.id == 'float' and len(e.right.args) == 1:
+            # float(a) / float(n): ZeroDivisionError when n == 0
+            n_, tn = self.expr(e.right.args[0])
+            return self.raising(e, '(if %s == 0 then throw PyErr.zeroDiv else pure (PyV.div %s %s))' % (n_, a[0], b[0]), 'PyV')
         if isinstance(e.op, ast.Div) and a[1] == 'PyV' and b[1] == 'PyV':
             return '(PyV.div %s %s)' % (a[0], b[0]), 'PyV'
         if isinstance(e.op, ast.Div):
@@ -1224,12 +1415,17 @@ class Tr:
     def expr_raw_option(self, e):
         """an expression whose Option-ness is being inspected (`is None`): no narrowing applied"""
         if isinstance(e, ast.Name):
-            if e.id not in self.env:
+            code = e.id
+            if e.id in self.spec.get('param_map', {}) and e.id not in self.env \
+                    and self.spec['param_map'][e.id][0] is not None:
+                code, t = self.spec['param_map'][e.id]
+            elif e.id not in self.env:
                 self.fail(e, 'variable not in scope / not in the type table')
-            t = self.env[e.id]
+            else:
+                t = self.env[e.id]
             if not (isinstance(t, tuple) and t[0] == 'Option'):
                 self.fail(e, '`is None` test on a non-Option variable (%s)' % self.show(t))
-            return e.id, t
+            return code, t
         c, t = self.expr(e)
         if not (isinstance(t, tuple) and t[0] == 'Option'):
             self.fail(e, '`is None` test on a non-Option expression (%s)' % self.show(t))
@@ -1246,6 +1442,13 @@ class Tr:
                 and isinstance(e.left, ast.Name):
             c, _ = self.expr(e)
             return c, e.left.id
+        names = self.not_none_names(e)
+        if names and isinstance(e, ast.BoolOp):
+            c, _ = self.expr(e)
+            return c, names
+        if isinstance(e, ast.Name) and e.id in self.flags and e.id in self.env:
+            # a flag that is only ever set to True under `if X is not None` (X never reassigned)
+            return e.id, list(self.flags[e.id])
         c, t = self.expr(e)
         if t == 'Bool':
             return c, None
@@ -1256,10 +1459,76 @@ class Tr:
             return '(%s.strVal != "")' % c, None
         self.fail(e, 'truth value of type %s is outside the table' % self.show(t))
 
+    @staticmethod
+    def not_none_names(test):
+        """`X is not None` or a conjunction of such tests -> [X, …]"""
+        if isinstance(test, ast.Compare) and len(test.ops) == 1 and isinstance(test.ops[0], ast.IsNot) \
+                and isinstance(test.left, ast.Name) and isinstance(test.comparators[0], ast.Constant) \
+                and test.comparators[0].value is None:
+            return [test.left.id]
+        if isinstance(test, ast.BoolOp) and isinstance(test.op, ast.And):
+            out = []
+            for v in test.values:
+                r = Tr.not_none_names(v)
+                if not r:
+                    return []
+                out += r
+            return out
+        return []
+
+    def compute_flags(self):
+        """Bool locals that are only assigned the constants False/True, every `= True` sitting directly in the
+        body of an `if` whose test is a conjunction of `X is not None` for never-assigned parameters X:
+        the flag being true implies those X are not None"""
+        assigns = {}
+        for node in ast.walk(self.func):
+            if isinstance(node, (ast.Assign, ast.AugAssign)):
+                tg = node.targets if isinstance(node, ast.Assign) else [node.target]
+                for t in tg:
+                    for n in names_in(t):
+                        assigns.setdefault(n.id, []).append(node)
+        all_assigned = set(assigns)
+        owner = {}
+        for node in ast.walk(self.func):
+            if isinstance(node, ast.If):
+                for st in node.body:
+                    owner[id(st)] = node
+        for name, nodes in assigns.items():
+            if self.locals.get(name) != 'Bool':
+                continue
+            implied = None
+            ok = True
+            for a in nodes:
+                if not (isinstance(a, ast.Assign) and len(a.targets) == 1 and isinstance(a.targets[0], ast.Name)
+                        and isinstance(a.value, ast.Constant) and isinstance(a.value.value, bool)):
+                    ok = False
+                    break
+                if a.value.value is True:
+                    ifn = owner.get(id(a))
+                    names = self.not_none_names(ifn.test) if ifn is not None else []
+                    if not names or any(n in all_assigned for n in names):
+                        ok = False
+                        break
+                    implied = set(names) if implied is None else implied & set(names)
+            if ok and implied:
+                self.flags[name] = sorted(implied)
+
     def call(self, e):
-        if e.keywords and not (isinstance(e.func, ast.Name) and e.func.id == 'sorted'):
+        if e.keywords and not (isinstance(e.func, ast.Name) and e.func.id == 'sorted') \
+                and not (src_of(e.func) in self.spec.get('calls', {})
+                         and self.spec['calls'][src_of(e.func)].get('kwargs')):
             self.fail(e, 'keyword arguments outside the table')
         f = e.func
+        if src_of(f) in self.spec.get('fn_params', {}):
+            # a function-valued parameter (user-supplied sim_function, the filter object's filter_pair)
+            ent = self.spec['fn_params'][src_of(f)]
+            if e.keywords or len(e.args) != len(ent['args']):
+                self.fail(e, 'wrong number of arguments for `%s`' % src_of(f))
+            args = [self.expr_expect(a, w) for a, w in zip(e.args, ent['args'])]
+            code = '(%s %s)' % (ent['lean'], ' '.join(args))
+            if ent.get('raises'):
+                return self.raising(e, code, ent['ret'])
+            return code, ent['ret']
         if isinstance(f, ast.Subscript) and isinstance(f.value, ast.Name) and f.value.id == 'COMP_OP_MAP' \
                 and len(e.args) == 2:
             # COMP_OP_MAP[op](a, b): the stage-1 generated comparison table (`compFn`)
@@ -1343,6 +1612,28 @@ class Tr:
                 if t != 'PyV' or td != 'Nat':
                     self.fail(e, 'round(%s, %s)' % (self.show(t), self.show(td)))
                 return '(PyV.round %s (PyV.int %s))' % (c, self.coerce(e, d, td, 'Int')), 'PyV'
+            if n == 'str' and len(e.args) == 1:
+                self.need_builtin(e, 'str')
+                c, t = self.expr(e.args[0])
+                if t in ('Nat', 'Int'):
+                    return '(toString %s)' % c, 'String'
+                if t == 'PyV' and self.spec.get('str_of_float'):
+                    # str(float): CPython's repr — a modelled function from the type table
+                    return '(%s %s)' % (self.spec['str_of_float'], c), 'String'
+                self.fail(e, 'str of %s' % self.show(t))
+            if n == 'zip' and len(e.args) == 2:
+                self.need_builtin(e, 'zip')
+                (a, ta), (b, tb) = self.expr(e.args[0]), self.expr(e.args[1])
+                if not (isinstance(ta, tuple) and ta[0] == 'List' and isinstance(tb, tuple) and tb[0] == 'List'):
+                    self.fail(e, 'zip of %s and %s' % (self.show(ta), self.show(tb)))
+                return '(List.zip %s %s)' % (a, b), L(P(ta[1], tb[1]))
+            if n == 'dict' and len(e.args) == 1:
+                # dict(pairs): later pairs overwrite earlier ones with the same key
+                self.need_builtin(e, 'dict')
+                c, t = self.expr(e.args[0])
+                if not (isinstance(t, tuple) and t[0] == 'List' and isinstance(t[1], tuple) and t[1][0] == 'Prod'):
+                    self.fail(e, 'dict of %s' % self.show(t))
+                return '(List.foldl (fun d p => Dict.set d p.1 p.2) [] %s)' % c, D(t[1][1], t[1][2])
             if n == 'tuple' and len(e.args) == 1:
                 self.need_builtin(e, 'tuple')
                 c, t = self.expr(e.args[0])
@@ -1358,10 +1649,26 @@ class Tr:
             key = src_of(f)
             if key in self.spec.get('calls', {}):
                 return self.table_call(e, key)
+            if m == 'apply' and len(e.args) == 1 and not e.keywords \
+                    and src_of(e.args[0]) == self.spec.get('tokenizer', 'self.tokenizer') + '.tokenize' \
+                    and 'tok' in self.env and self.env['tok'][0] == 'Fn':
+                # Series.apply(tokenizer.tokenize): the tokenizer on every value, TypeError on the first non-str
+                c, t = self.expr(f.value)
+                if t != L('Cell'):
+                    self.fail(e, '.apply on %s' % self.show(t))
+                return self.raising(e, '(List.mapM (fun c => if c.isStr then pure (tok c.strVal) else '
+                                       'throw PyErr.typeErr) %s)' % c, L(self.env['tok'][2]))
             if isinstance(f.value, ast.Name) and m in ('find_candidates', '_filter_suffix'):
                 r = self.object_method(e, f.value.id, m)
                 if r is not None:
                     return r
+            if isinstance(f.value, ast.Constant) and f.value.value == '' and m == 'join' and len(e.args) == 1 \
+                    and isinstance(e.args[0], ast.List) and not e.keywords:
+                parts = [self.expr(x) for x in e.args[0].elts]
+                for (c, t), x in zip(parts, e.args[0].elts):
+                    if t != 'String':
+                        self.fail(x, "''.join of %s" % self.show(t))
+                return '(String.join [%s])' % ', '.join(c for c, _ in parts), 'String'
             if key == 'pd.isnull' and len(e.args) == 1:
                 self.need_import(e, 'pd')
                 c, t = self.expr(e.args[0])
@@ -1371,11 +1678,22 @@ class Tr:
             if len(e.args) == 1 and 'tok' in self.env \
                     and key == self.spec.get('tokenizer', 'self.tokenizer') + '.tokenize':
                 c, t = self.expr(e.args[0])
+                tt = self.env['tok']
+                tokc = 'tok'
+                if tt[0] == 'Option':
+                    pyname = self.spec.get('tokenizer')
+                    if pyname not in self.narrowed:
+                        self.fail(e, 'the tokenizer may be None here')
+                    tt = tt[1]
+                    tokc = '(tok.getD %s)' % default_of(tt)
+                if t == 'Cell' and self.spec.get('raises'):
+                    # the tokenizer raises TypeError on anything that is not a str
+                    return self.raising(e, '(if %s.isStr then pure (%s %s.strVal) else throw PyErr.typeErr)' % (c, tokc, c), tt[2])
                 if t == 'Cell':
                     # the tokenizer raises TypeError on a non-string; join-attribute cells are strings
-                    return '(tok %s.strVal)' % c, self.env['tok'][2]
+                    return '(%s %s.strVal)' % (tokc, c), tt[2]
                 if t == 'String':
-                    return '(tok %s)' % c, self.env['tok'][2]
+                    return '(%s %s)' % (tokc, c), tt[2]
                 self.fail(e, 'tokenize of %s' % self.show(t))
             # set(xs).intersection(set(ys))
             if m == 'intersection' and len(e.args) == 1 and self.is_set_call(f.value) and self.is_set_call(e.args[0]):
@@ -1438,7 +1756,20 @@ class Tr:
         `calls` table: argument types are checked; `fuel` gives the extra first argument of a function that
         is recursive in Python (template over the translated arguments, or the enclosing fuel variable)"""
         ent = self.spec['calls'][key]
-        if e.keywords or len(e.args) != len(ent['args']):
+        if e.keywords:
+            # keyword arguments are put in the callee's parameter order (`kwargs` = its parameter names)
+            names = ent.get('kwargs')
+            if not names:
+                self.fail(e, 'keyword arguments for `%s` are outside the table' % key)
+            given = dict(zip(names, e.args))
+            for kw in e.keywords:
+                if kw.arg not in names or kw.arg in given:
+                    self.fail(e, 'keyword `%s` of `%s`' % (kw.arg, key))
+                given[kw.arg] = kw.value
+            if sorted(given) != sorted(names):
+                self.fail(e, 'wrong arguments for `%s`' % key)
+            e = ast.copy_location(ast.Call(func=e.func, args=[given[n] for n in names], keywords=[]), e)
+        if len(e.args) != len(ent['args']):
             self.fail(e, 'wrong number of arguments for `%s`' % key)
         if 'import' in ent and self.imports.get(key) != ent['import']:
             self.fail(e, '`%s` must be imported by `from %s import %s`' % (key, ent['import'][0], ent['import'][1]))
@@ -1714,7 +2045,23 @@ class Tr:
             self.loop_local.setdefault(id(self.loop_bodies[-1]), set()).add(name)
 
     def emit(self, ind, line):
+        for pre in self.pre:
+            self.out.append('  ' * ind + pre)
+        self.pre = []
         self.out.append('  ' * ind + line)
+
+    def raising(self, node, code, t):
+        """a sub-expression that may raise (only in functions the table marks `raises`): bound with `←` to a
+        temporary BEFORE the statement it occurs in — refused where that would change the evaluation order
+        (operands of and/or, conditional expressions, elif tests)"""
+        if not self.spec.get('raises'):
+            self.fail(node, 'this expression may raise, but the type table gives the function no exception result')
+        if self.no_raise_ctx:
+            self.fail(node, 'a raising expression under and/or/conditional/elif would be evaluated out of order')
+        self.tmp += 1
+        name = 't__%d' % self.tmp
+        self.pre.append('let %s ← %s' % (name, code))
+        return name, t
 
     def analyse(self, body):
         """which variables are mutated in place / assigned more than once; checks on parameters"""
@@ -1728,7 +2075,7 @@ class Tr:
                 self.rebound_params.add(n)
         for node in ast.walk(self.func):
             if isinstance(node, ast.Expr) and isinstance(node.value, ast.Call) \
-                    and isinstance(node.value.func, ast.Attribute) and node.value.func.attr in ('append', 'sort', 'add', 'update') \
+                    and isinstance(node.value.func, ast.Attribute) and node.value.func.attr in ('append', 'sort', 'add', 'update', 'insert') \
                     and isinstance(node.value.func.value, ast.Name):
                 self.mutated.add(node.value.func.value.id)
             if isinstance(node, ast.Expr) and isinstance(node.value, ast.Call) \
@@ -1914,7 +2261,9 @@ class Tr:
         # leave scope: names declared in this block disappear
         self.env = {n: t for n, t in self.env.items() if n in saved_env}
         self.declared = {n for n in self.declared if n in saved_declared}
-        self.narrowed = {n for n in saved_narrow if n in self.narrowed}
+        # narrowing facts survive for names that are still in scope
+        scope = set(self.env) | set(self.spec.get('param_map', {}))
+        self.narrowed = {n for n in self.narrowed if n in scope}
 
     def is_retype_if(self, s):
         rt = self.spec.get('retype')
@@ -1972,6 +2321,32 @@ class Tr:
                 self.fail(s, '`+=` on %s is outside the table' % self.show(t))
             self.emit(ind, '%s := %s + %s' % (name, name, self.coerce(s, c, tc, t)))
             return
+        if isinstance(s, ast.Expr) and src_of(s) in self.spec.get('ignore_stmts', []):
+            # validation of a pandas object: outside the generated function (literal form checked)
+            if self.loop_vars:
+                self.fail(s, 'ignored statement inside a loop')
+            self.notes.append('%s:%d `%s` is not translated (validation of the pandas object)' % (
+                self.fname, s.lineno, src_of(s)))
+            return
+        if isinstance(s, ast.Expr) and isinstance(s.value, ast.Call) and isinstance(s.value.func, ast.Name) \
+                and s.value.func.id in self.spec.get('raising_stmts', {}):
+            ent = self.spec['raising_stmts'][s.value.func.id]
+            if self.imports.get(s.value.func.id) != ent['import']:
+                self.fail(s, '`%s` must be imported from %s' % (s.value.func.id, ent['import'][0]))
+            call = s.value
+            if call.keywords or len(call.args) != len(ent['args']):
+                self.fail(s, 'wrong arguments for `%s`' % s.value.func.id)
+            codes = []
+            for a, w in zip(call.args, ent['args']):
+                if isinstance(w, str) and w.startswith('='):
+                    if src_of(a) != w[1:]:
+                        self.fail(a, 'argument must be `%s`' % w[1:])
+                else:
+                    codes.append(self.expr_expect(a, w))
+            if not self.spec.get('raises'):
+                self.fail(s, 'raising statement in a function without an exception result')
+            self.emit(ind, ent['lean'].format(*codes))
+            return
         if isinstance(s, ast.Expr) and isinstance(s.value, ast.Call) and isinstance(s.value.func, ast.Attribute) \
                 and s.value.func.attr == 'build' and isinstance(s.value.func.value, ast.Name) \
                 and s.value.func.value.id in self.spec.get('objects', {}):
@@ -1992,6 +2367,14 @@ class Tr:
                 self.fail(s, 'bare `return` is outside the table')
             if self.spec.get('ret_record'):
                 return self.return_record(s, ind)
+            if self.spec.get('tail_return'):
+                # the function ends with pandas statements building the result from one list: that list is returned
+                name, tail = self.spec['tail_return']
+                got = [src_of(x) for x in stmts[k - len(tail) + 1:k + 1]]
+                if self.loop_vars or got != tail:
+                    self.fail(s, 'the function must end with: %s' % ' ; '.join(tail))
+                self.emit(ind, 'return %s' % self.var(ast.Name(id=name, ctx=ast.Load(), lineno=s.lineno, col_offset=0))[0])
+                return
             if self.spec.get('dataframe_return'):
                 rows, header = self.spec['dataframe_return']
                 prev = stmts[k - 1] if k > 0 else None
@@ -2032,7 +2415,7 @@ class Tr:
             c, tc = self.expr(s.value)
             # assigning a non-None value to an Option-typed local: it is known not to be None until its
             # next assignment (narrowing is dropped at the end of any block/loop that assigns it)
-            narrow = isinstance(t, tuple) and t[0] == 'Option' and tc == t[1]
+            narrow = (isinstance(t, tuple) and t[0] == 'Option' and tc == t[1]) or (t == 'SimArg' and tc == 'Cell')
             c = self.coerce(s, c, tc, t)
             self.narrowed.discard(name)
             if narrow:
@@ -2066,6 +2449,10 @@ class Tr:
     # ---- worker idioms: constructed objects, aliases of library functions, constants ----------------
     def worker_assign(self, s, name, ind):
         sp = self.spec
+        if sp.get('tail_return') and any(src_of(s) == x for x in sp['tail_return'][1][:-1]):
+            if self.loop_vars:
+                self.fail(s, 'result construction inside a loop')
+            return True
         if sp.get('dataframe_return') and name == 'output_table':
             if src_of(s) != 'output_table = pd.DataFrame(%s, columns=%s)' % sp['dataframe_return'] or self.loop_vars:
                 self.fail(s, 'DataFrame construction outside the table')
@@ -2076,6 +2463,7 @@ class Tr:
                     or self.loop_vars:
                 self.fail(s, '`%s` must be assigned exactly once: `%s`' % (name, sp['pandas_views'][name]))
             self.need_import(s, 'pd')
+            self.views_bound.add(name)
             note = '%s:%d `%s = %s` is a parameter of the generated function' % (
                 self.fname, s.lineno, name, sp['pandas_views'][name])
             if note not in self.notes:
@@ -2319,6 +2707,12 @@ class Tr:
         if f.attr == 'sort' and not call.args and t == L('Nat'):
             self.emit(ind, '%s := sortNat %s' % (name, name))
             return
+        if f.attr == 'insert' and len(call.args) == 2 and isinstance(call.args[0], ast.Constant) \
+                and call.args[0].value == 0 and not isinstance(call.args[0].value, bool) \
+                and (t == 'Row' or (isinstance(t, tuple) and t[0] == 'List')):
+            self.no_alias(call.args[1])
+            self.emit(ind, '%s := [%s] ++ %s' % (name, self.expr_expect(call.args[1], elem_type(t)), name))
+            return
         # a Python set is modelled as the duplicate-free list of its elements in insertion order (only
         # membership and size of a set are observable to the callers that are translated)
         if f.attr == 'add' and len(call.args) == 1 and isinstance(t, tuple) and t[0] == 'Set':
@@ -2461,7 +2855,7 @@ class Tr:
         for s in stmts:
             for node in ast.walk(s):
                 if isinstance(node, ast.Call) and isinstance(node.func, ast.Attribute) \
-                        and node.func.attr in ('append', 'sort', 'add', 'update') and isinstance(node.func.value, ast.Name) \
+                        and node.func.attr in ('append', 'sort', 'add', 'update', 'insert') and isinstance(node.func.value, ast.Name) \
                         and node.func.value.id == name:
                     return True
                 if isinstance(node, ast.Assign):
@@ -2510,16 +2904,38 @@ class Tr:
         c, narrow_in = self.truthy(test)
         self.emit(ind, '%s %s then' % (kw, c))
         saved = set(self.narrowed)
-        if narrow_in is not None and narrow_in not in assigned_names(s.body):
-            self.narrowed.add(narrow_in)
+        for nm in ([narrow_in] if isinstance(narrow_in, str) else (narrow_in or [])):
+            if nm not in assigned_names(s.body):
+                self.narrowed.add(nm)
         self.block(s.body, ind + 1)
-        self.narrowed = set(saved) - set(assigned_names(s.body)) - set(assigned_names(s.orelse))
+        end_body = None if self.ends_in_jump(s.body) else set(self.narrowed)
+        after = set(saved) - set(assigned_names(s.body)) - set(assigned_names(s.orelse))
+        self.narrowed = set(saved)          # the else branch starts from the state before the `if`
+        if isinstance(test, ast.Compare) and len(test.ops) == 1 and isinstance(test.ops[0], ast.Is) \
+                and isinstance(test.left, ast.Name) and isinstance(test.comparators[0], ast.Constant) \
+                and test.comparators[0].value is None and test.left.id not in assigned_names(s.orelse):
+            self.narrowed.add(test.left.id)          # `if x is None: … else:` — x is not None in the else branch
         if s.orelse:
             if len(s.orelse) == 1 and isinstance(s.orelse[0], ast.If):
+                self.no_raise_ctx += 1
+                try:
+                    self.truthy(s.orelse[0].test)      # an elif test must not raise (checked on a dry run)
+                finally:
+                    self.no_raise_ctx -= 1
                 self.if_stmt(s.orelse[0], ind, s.orelse, 0, kw='else if')
             else:
                 self.emit(ind, 'else')
                 self.block(s.orelse, ind + 1)
+        end_else = set(self.narrowed) if s.orelse and not self.ends_in_jump(s.orelse) else \
+            (None if s.orelse else set(saved))
+        # facts that hold at the end of every branch that falls through
+        if end_body is not None and end_else is not None:
+            after |= end_body & end_else
+        elif end_body is not None:
+            after |= end_body
+        elif end_else is not None:
+            after |= end_else
+        self.narrowed = after
         if narrow_after is not None and kw == 'if':
             self.narrowed.add(narrow_after)
 
@@ -2613,6 +3029,7 @@ class Tr:
         if self.spec.get('state'):
             body = self.object_state(body)
         self.analyse(body)
+        self.compute_flags()
         self.env = dict(self.params)
         body = self.detect_cache(body)
         def ends_in_return(stmts):
@@ -2642,6 +3059,9 @@ class Tr:
                 self.spec['lean'], sig.replace('(', '(fuel : Nat) (', 1) if not self.spec.get('tyvars')
                 else self.spec['tyvars'] + ' (fuel : Nat) ' + sig[len(self.spec['tyvars']) + 1:],
                 lean_type(self.ret), fuel['exhausted'])
+        elif self.spec.get('raises'):
+            # the Python function may raise: result in `Except PyErr`, statements in that monad
+            head = 'def %s %s : Except PyErr %s := do' % (self.spec['lean'], sig, lean_type(self.ret, False))
         else:
             head = 'def %s %s : %s := Id.run do' % (self.spec['lean'], sig, lean_type(self.ret))
         self.top_body = body
@@ -2683,10 +3103,26 @@ OUTPUTS = {
     'Loops': (['SSJ.Model.Filters'], 'stage 2: loop helpers, typed `do`-notation', 'SSJ/Proofs/GenLoops.lean'),
     'Loops2': (['SSJ.Gen.Loops', 'SSJ.Model.Joins'],
                'stage 3: filters, indexes and join workers, typed `do`-notation', 'SSJ/Proofs/GenLoops2.lean'),
+    'Loops3': (['SSJ.Gen.Loops2', 'SSJ.Model.Matcher', 'SSJ.Model.Profiler'],
+               'stage 4: functions that may raise (matcher, filter_candset), `Except PyErr` do-notation',
+               'SSJ/Proofs/GenLoops3.lean'),
 }
 
 
-PRELUDE = {'Loops2': '''set_option linter.unusedVariables false
+PRELUDE = {'Loops3': '''set_option linter.unusedVariables false
+
+/-- the raw value of a `sim_function` argument known not to have been replaced by its tokens yet -/
+def simArgCell : SimArg → Cell
+  | .raw c => c
+  | .toks _ => Cell.missing
+
+/-- `str(x)` of the double `round(·, 2)` returned for a percentage (CPython's repr; modelled in
+    SSJ/Model/Profiler.lean) -/
+def strOfPercent : PyV → String
+  | .float q => Profiler.pctToString q
+  | _ => "?"
+
+''', 'Loops2': '''set_option linter.unusedVariables false
 
 /-- a Python tuple `(token, occurrence)` as built by `_number_repeated_tokens`; Python compares tuples
     lexicographically -/
